@@ -58,7 +58,27 @@ type world struct {
 	viol    []violation
 	lastErr string
 	reads   int
-	ticker  *seqTicker // Poller configurations: the polling task's ticker, fired by the event "tick"
+	held    []heldValue // what handles have returned so far, as handed out and as a private copy
+	ticker  *seqTicker  // Poller configurations: the polling task's ticker, fired by the event "tick"
+}
+
+// heldValue is a slice a handle returned, kept by the reader, and a copy of what it held then.
+type heldValue struct {
+	name string
+	got  []byte
+	was  string
+}
+
+// checkHeld: a value a handle has returned stays what it was - the store replaces values, it never
+// rewrites bytes it has handed out.
+func (w *world) checkHeld(after string) {
+	for _, h := range w.held {
+		if string(h.got) != h.was {
+			w.fail("C12", "returned-bytes-rewritten", "after %s: bytes a handle for %q returned earlier (%q) now read %q", after, h.name, h.was, string(h.got))
+			w.held = nil
+			return
+		}
+	}
 }
 
 // seqTicker is a poll ticker the history fires itself; Done reports the end of the poll a tick caused.
@@ -249,6 +269,7 @@ func (w *world) expired(e *mEntry) bool {
 // step applies one event.
 func (w *world) step(ev string) {
 	w.step1(ev)
+	w.checkHeld(ev)
 	if kind, _, _ := strings.Cut(ev, ":"); w.cfg.AutoRead && w.st != nil && kind != "secret" && kind != "read" {
 		for _, n := range w.cfg.Declared {
 			w.step1("secret:" + n)
@@ -301,7 +322,11 @@ func (w *world) step1(ev string) {
 		if h == nil {
 			return
 		}
-		got := string(h.Get())
+		raw := h.Get()
+		got := string(raw)
+		if len(w.held) < 8 {
+			w.held = append(w.held, heldValue{name, raw, got})
+		}
 		w.reads++
 		e := w.m[name]
 		if e == nil {
